@@ -23,7 +23,7 @@ func isXARes(w *core.World, f *types.Func, name string) bool {
 }
 
 func checkC17(r *core.Run) {
-	r.Explain = "Decided statically: (C17.pure) phase two consults no package-level state that request paths mutate; (C17.reset) every boolean state field of the XA connection (and of the embedded Conn) that some method raises to true is lowered again by a function the per-branch life cycle reaches (BeginTx, Commit, Rollback, ResetSession) — a pooled connection is reused without Close, so a flag only lowered in Close/CloseForce stays raised for every later branch and, when it guards XA END / XA ROLLBACK, leaves those branches active; (C17.order) in the XA connection's BeginTx the branch registration dominates (through its nil-error edge) the construction of the branch identifier, which dominates XAResource.Start; failure edges return an error; (C17.id) every xid argument of XAResource.Start/End/XAPrepare/Commit/Rollback is the String() of an identifier built by XaIdBuild from the global xid and the branch id (the connection's identifier field is only ever assigned such a value; phase two builds it with the same function from the request's Xid and BranchId); (C17.legal) in phase one End precedes XAPrepare through its nil-error edge, XAResource.Commit is reachable only from the phase-two BranchCommit, and the driver.Tx handed to the application ends and prepares the branch on Commit; (C17.surface) every failure of end / timeout check / prepare reaches the caller as a non-nil error, also through the implicit-transaction wrapper; (C17.status) phase-two success constants only with a nil error; (C17.nil) the nil target stored in Tx for XA mode is never dereferenced from an XA path. NOT decided: the database's own XA state machine; phase two arriving on another process."
+	r.Explain = "Decided statically: (C17.pure) phase two consults no package-level state that request paths mutate; (C17.id, also) the text of the branch identifier (String() of what XaIdBuild returns — the id of every XA command and the key the connection is kept under) is built from the whole xid and the whole branch id and nothing on the way cuts it; (C17.reset) every boolean state field of the XA connection (and of the embedded Conn) that some method raises to true is lowered again by a function the per-branch life cycle reaches (BeginTx, Commit, Rollback, ResetSession) — a pooled connection is reused without Close, so a flag only lowered in Close/CloseForce stays raised for every later branch and, when it guards XA END / XA ROLLBACK, leaves those branches active; (C17.order) in the XA connection's BeginTx the branch registration dominates (through its nil-error edge) the construction of the branch identifier, which dominates XAResource.Start; failure edges return an error; (C17.id) every xid argument of XAResource.Start/End/XAPrepare/Commit/Rollback is the String() of an identifier built by XaIdBuild from the global xid and the branch id (the connection's identifier field is only ever assigned such a value; phase two builds it with the same function from the request's Xid and BranchId); (C17.legal) in phase one End precedes XAPrepare through its nil-error edge, XAResource.Commit is reachable only from the phase-two BranchCommit, and the driver.Tx handed to the application ends and prepares the branch on Commit; (C17.surface) every failure of end / timeout check / prepare reaches the caller as a non-nil error, also through the implicit-transaction wrapper; (C17.status) phase-two success constants only with a nil error; (C17.nil) the nil target stored in Tx for XA mode is never dereferenced from an XA path. NOT decided: the database's own XA state machine; phase two arriving on another process."
 	r.Trusted = []string{"go/types, go/cfg", "XAResource implementations issue the XA statement named by the method"}
 	w := r.W
 	xc := w.NamedType("pkg/datasource/sql", "XAConn")
@@ -38,6 +38,7 @@ func checkC17(r *core.Run) {
 		r.Anchor("C17.id", nil, "XaIdBuild")
 		return
 	}
+	c17IDText(r, idBuild)
 	reg := newReach(w, 3, func(f *types.Func) bool { return isBranchRegister(w, f) })
 	startR := newReach(w, 2, func(f *types.Func) bool { return isXARes(w, f, "Start") })
 	// ---- C17.order
@@ -1021,4 +1022,100 @@ func c17Cleared(r *core.Run, xc *types.Named) {
 				"after a call that may set c."+fld.Name()+" to nil, "+bad+": the failure path panics (nil pointer) instead of returning its error to the caller")
 		}
 	}
+}
+
+// c17IDText (C17.id): the text of the branch identifier — the String() of what XaIdBuild returns, used in every XA
+// command and as the key under which the connection is kept for phase two — contains the whole global xid and the
+// whole branch id: every value that can be returned is built from both fields, and nothing on the way cuts it (no
+// slice or index expression, no width-limited formatting). Two branches of one global transaction differ in the
+// last digits of the branch id only; a cut text gives them one identifier.
+func c17IDText(r *core.Run, idBuild *core.FuncInfo) {
+	w := r.W
+	var idT *types.Named
+	if sig, ok := idBuild.Obj.Type().(*types.Signature); ok && sig.Results().Len() >= 1 {
+		t := sig.Results().At(0).Type()
+		if p, isP := t.(*types.Pointer); isP {
+			t = p.Elem()
+		}
+		idT, _ = t.(*types.Named)
+	}
+	str := methodInfo(w, idT, "String")
+	if idT == nil || str == nil || str.Decl.Body == nil {
+		r.Undecided("C17.id", "the branch identifier's String()", w.Pos(idBuild.Decl.Pos()), "XaIdBuild's result type has no String method with a body")
+		return
+	}
+	r.Fn(str)
+	info := str.Pkg.TypesInfo
+	// every expression that can flow into a returned value
+	var exprs []ast.Expr
+	seen := map[types.Object]bool{}
+	var add func(e ast.Expr, depth int)
+	add = func(e ast.Expr, depth int) {
+		if e == nil || depth > 5 {
+			return
+		}
+		exprs = append(exprs, e)
+		ast.Inspect(e, func(n ast.Node) bool {
+			id, ok := n.(*ast.Ident)
+			if !ok {
+				return true
+			}
+			v, ok := info.Uses[id].(*types.Var)
+			if !ok || v.IsField() || seen[v] || v.Parent() == v.Pkg().Scope() {
+				return true
+			}
+			seen[v] = true
+			for _, d := range localDefs(str, v) {
+				add(d.rhs, depth+1)
+			}
+			return true
+		})
+	}
+	ast.Inspect(str.Decl.Body, func(n ast.Node) bool {
+		if rs, ok := n.(*ast.ReturnStmt); ok {
+			for _, res := range rs.Results {
+				add(res, 0)
+			}
+		}
+		return true
+	})
+	cut := ""
+	fields := map[string]bool{}
+	for _, e := range exprs {
+		ast.Inspect(e, func(n ast.Node) bool {
+			switch x := n.(type) {
+			case *ast.SliceExpr:
+				cut = w.Pos(x.Pos()) + ": " + core.ExprString(x)
+			case *ast.SelectorExpr:
+				if v, ok := info.Uses[x.Sel].(*types.Var); ok && v.IsField() {
+					fields[v.Name()] = true
+				}
+			case *ast.BasicLit:
+				if x.Kind == token.STRING && strings.Contains(x.Value, "%.") {
+					cut = w.Pos(x.Pos()) + ": format " + x.Value
+				}
+			}
+			return true
+		})
+	}
+	st, _ := idT.Underlying().(*types.Struct)
+	var missing []string
+	for i := 0; st != nil && i < st.NumFields(); i++ {
+		fn := st.Field(i).Name()
+		if (strings.EqualFold(fn, "xid") || strings.EqualFold(fn, "branchId")) && !fields[fn] {
+			missing = append(missing, fn)
+		}
+	}
+	r.Sites++
+	why := ""
+	switch {
+	case cut != "":
+		why = "the text is cut on its way (" + cut + ")"
+	case len(missing) > 0:
+		why = "the text does not contain " + strings.Join(missing, ", ")
+	case len(fields) < 2:
+		why = "the text is not built from the global xid and the branch id"
+	}
+	r.Check(why == "", "C17.id", core.ShortKey(str.Obj)+" : the identifier text holds the whole xid and the whole branch id", w.Pos(str.Decl.Pos()), "concatenation of both fields, uncut",
+		why+": two branches of one global transaction (consecutive branch ids) can get the same identifier — their XA commands collide, the second connection replaces or loses its place under the shared key, and phase two addresses a connection that never prepared that branch")
 }
